@@ -67,6 +67,11 @@ def materialize(cls, defects, names):
         elif df == "nonconserving_flow":
             u, v = list(G.edges())[0]
             G[u][v]["flow"] += 2
+        elif df == "nonconserving_by_one_in_millions":
+            for u, v in list(G.edges()):
+                G[u][v]["flow"] *= 1000000
+            u, v = list(G.edges())[0]
+            G[u][v]["flow"] += 1
         elif df == "nonconserving_behind_zero_flow":
             # every node balanced except one inner node whose incoming edges all carry 0 while its outgoing edge carries flow
             if not cyc:
